@@ -316,6 +316,10 @@ class HttpParser(abc.ABC, Generic[_MsgT]):
         if self._msg_in_flight > 0:
             self._msg_in_flight -= 1
 
+    def has_unparsed_data(self) -> bool:
+        """Bytes of a message whose head is not complete yet are buffered."""
+        return bool(self._tail or self._lines)
+
     def feed_eof(self) -> _MsgT | None:
         if self._payload_parser is not None:
             self._payload_parser.feed_eof()
